@@ -397,6 +397,8 @@ class MemOrchestrator(BaseOrchestrator):
 
         :param InvocationId invocation_id: The ID of the invocation to be set up for auto-purge.
         """
+        if invocation_id not in self.invocation_status_record:
+            return
         self.invocations_to_purge.append((time(), invocation_id))
 
     def auto_purge(self) -> None:
